@@ -67,7 +67,7 @@ build_variant() {
   # dictionary of the integer literals in the library's sources (gen_common.h, literalPass): a value the code treats
   # specially is one of them, whatever tree is being checked
   if [ ! -s "$D/lib/literals.txt" ] || [ "$D/lib/.key" -nt "$D/lib/literals.txt" ]; then
-    python3 - "$REPO" > "$D/lib/literals.tmp" <<'PY'
+    python3 - "$REPO" "$D/lib/litseq.txt" > "$D/lib/literals.tmp" <<'PY'
 import glob, re, sys
 vals = set()
 for f in sorted(glob.glob(sys.argv[1] + "/src/*.cpp") + glob.glob(sys.argv[1] + "/include/asam_cmp/*.h")):
@@ -82,6 +82,22 @@ for f in sorted(glob.glob(sys.argv[1] + "/src/*.cpp") + glob.glob(sys.argv[1] + 
             vals.add(v)
 for v in sorted(vals)[:4000]:
     print(v)
+# byte sequences: the hexadecimal literals of one source line in order (byte-wise, wide ones big-endian), 2..16 bytes
+seqs = []
+for f in sorted(glob.glob(sys.argv[1] + "/src/*.cpp") + glob.glob(sys.argv[1] + "/include/asam_cmp/*.h")):
+    for line in open(f, errors="replace"):
+        line = line.split("//")[0]
+        b = []
+        for m in re.finditer(r"(?<![\w.])0[xX]([0-9a-fA-F]+)(?:[uUlL]*)(?![\w.])|'\\\\x([0-9a-fA-F]{2})'", line):
+            h = m.group(1) or m.group(2)
+            if len(h) % 2:
+                h = "0" + h
+            b += [h[i:i + 2] for i in range(0, len(h), 2)]
+        if 2 <= len(b) <= 16:
+            q = "".join(b).lower()
+            if q not in seqs:
+                seqs.append(q)
+open(sys.argv[2], "w").write("\n".join(seqs[:600]) + ("\n" if seqs else ""))
 PY
     mv "$D/lib/literals.tmp" "$D/lib/literals.txt"
   fi
